@@ -13,7 +13,12 @@
 //               noexec is produced by the driver's own execvp failing: the step that runs last before the
 //               target removes <C14_SHIMDIR>/<name> (for k = 1 the orchestrator never installs it).
 //   C14_SCHED   unix socket of the schedule orchestrator; C14_ID the driver's id.  The shim announces
-//               "<id> <kind> <k>\n", waits for one reply line, runs the step, sends "done\n".
+//               "<id> <pid> <kind> <k>\n" and waits for one reply line: "go" (run the step) or "fault:<how>" (fail
+//               in that way instead; how as in C14_FAULT except noexec).  It then sends "done\n" and keeps the
+//               connection open until it dies, so end-of-file on the connection tells the orchestrator that the
+//               step's process is gone.  Several steps of one driver may be blocked here at the same time.
+// The ordinal k is allocated and the B record written under an exclusive lock on steps.log, so steps that a driver
+// starts concurrently get distinct ordinals and B/E records appear in the order of the events.
 #define _GNU_SOURCE
 #include <errno.h>
 #include <fcntl.h>
@@ -22,6 +27,7 @@
 #include <stdio.h>
 #include <stdlib.h>
 #include <string.h>
+#include <sys/file.h>
 #include <sys/resource.h>
 #include <sys/socket.h>
 #include <sys/un.h>
@@ -119,10 +125,14 @@ int main(int argc, char **argv) {
   if (!run)
     die("C14_RUN unset");
   snprintf(steps_path, sizeof steps_path, "%s/steps.log", run);
-  int k = count_kind(kind) + 1;
 
-  // Log the step with its argv.
+  // Allocate the ordinal and log the step with its argv, atomically with respect to sibling steps.
+  int k;
   {
+    int lfd = open(steps_path, O_RDWR | O_CLOEXEC);
+    if (lfd < 0 || flock(lfd, LOCK_EX) < 0)
+      die("cannot lock steps.log");
+    k = count_kind(kind) + 1;
     char *buf = malloc(65536);
     int n = snprintf(buf, 65536, "B %s %d %s |", kind, k, *out ? out : "-");
     for (int i = 0; i < argc && n < 60000; i++)
@@ -130,7 +140,19 @@ int main(int argc, char **argv) {
     snprintf(buf + n, 65536 - n, "\n");
     append(buf);
     free(buf);
+    flock(lfd, LOCK_UN);
+    close(lfd);
   }
+
+  // Fault from the environment?
+  const char *fault = getenv("C14_FAULT");
+  char fkind[32] = "", fhow[32] = "";
+  int fk = 0;
+  if (fault && *fault && sscanf(fault, "%31[^:]:%d:%31s", fkind, &fk, fhow) != 3)
+    die("bad C14_FAULT");
+  char how[40] = "";
+  if (fk == k && !strcmp(fkind, kind) && strcmp(fhow, "noexec"))
+    snprintf(how, sizeof how, "%s", fhow);
 
   // Schedule point.
   int sock = -1;
@@ -143,30 +165,37 @@ int main(int argc, char **argv) {
       die("cannot reach the scheduler");
     char msg[256];
     const char *id = getenv("C14_ID");
-    int n = snprintf(msg, sizeof msg, "%s %s %d\n", id ? id : "?", kind, k);
+    int n = snprintf(msg, sizeof msg, "%s %d %s %d\n", id ? id : "?", (int)getpid(), kind, k);
     if (write(sock, msg, n) != n)
       die("scheduler write");
-    char c;
-    for (;;) {  // wait for the go line
+    char reply[32];
+    size_t rn = 0;
+    for (;;) {  // wait for the reply line
+      char c;
       ssize_t r = read(sock, &c, 1);
+      if (r < 0 && errno == EINTR)
+        continue;
       if (r <= 0)
         die("scheduler went away");
       if (c == '\n')
         break;
+      if (rn + 1 < sizeof reply)
+        reply[rn++] = c;
+    }
+    reply[rn] = 0;
+    if (!strncmp(reply, "fault:", 6))
+      snprintf(how, sizeof how, "%s", reply + 6);
+    else if (strcmp(reply, "go")) {
+      errno = EPROTO;
+      die("bad scheduler reply");
     }
   }
 
-  // Fault?
-  const char *fault = getenv("C14_FAULT");
-  char fkind[32] = "", fhow[32] = "";
-  int fk = 0;
-  if (fault && *fault && sscanf(fault, "%31[^:]:%d:%31s", fkind, &fk, fhow) != 3)
-    die("bad C14_FAULT");
   char line[256];
-  if (fk == k && !strcmp(fkind, kind) && strcmp(fhow, "noexec")) {
-    snprintf(line, sizeof line, "E %s %d fault:%s\n", kind, k, fhow);
+  if (*how) {
+    snprintf(line, sizeof line, "E %s %d fault:%s\n", kind, k, how);
     append(line);
-    if (!strcmp(fhow, "partial") && *out && strcmp(out, "-")) {
+    if (!strcmp(how, "partial") && *out && strcmp(out, "-")) {
       int fd = open(out, O_WRONLY | O_CREAT | O_TRUNC, 0644);
       if (fd >= 0) {
         if (write(fd, "PARTIAL", 7) < 0) {
@@ -174,18 +203,15 @@ int main(int argc, char **argv) {
         close(fd);
       }
     }
-    if (sock >= 0) {
-      if (write(sock, "done\n", 5) < 0) {
-      }
-      close(sock);
+    if (sock >= 0 && send(sock, "done\n", 5, MSG_NOSIGNAL) < 0) {
     }
-    if (!strcmp(fhow, "exit1") || !strcmp(fhow, "partial"))
+    if (!strcmp(how, "exit1") || !strcmp(how, "partial"))
       _exit(1);
-    if (!strcmp(fhow, "exit3"))
+    if (!strcmp(how, "exit3"))
       _exit(3);
-    if (!strcmp(fhow, "segv"))
+    if (!strcmp(how, "segv"))
       self_signal(SIGSEGV);
-    if (!strcmp(fhow, "kill"))
+    if (!strcmp(how, "kill"))
       self_signal(SIGKILL);
     errno = EINVAL;
     die("unknown fault kind");
@@ -218,10 +244,7 @@ int main(int argc, char **argv) {
     unlink(p);
   }
 
-  if (sock >= 0) {
-    if (write(sock, "done\n", 5) < 0) {
-    }
-    close(sock);
+  if (sock >= 0 && send(sock, "done\n", 5, MSG_NOSIGNAL) < 0) {
   }
   if (WIFSIGNALED(status))
     self_signal(WTERMSIG(status));
